@@ -55,6 +55,9 @@ def gen_case(rng, big=False):
             k = rng.randint(1, len(base))
             times = base[:k]
         markets.append({"kind": kind, "times": times, "open": rng.random() < 0.4})
+    if istr == "1min" and rng.random() < 0.35:       # a real UniLpMarket in the mix (its frame must have a row for every bar)
+        markets.append({"kind": "uni", "times": list(base), "open": rng.random() < 0.3})
+        nm += 1
     lo = min(m["times"][0] for m in markets)
     hi = max(m["times"][-1] for m in markets)
     r = rng.random()
@@ -110,7 +113,7 @@ def run_impl(case):
     from demeter._typing import DemeterError
     rec = cl.Recorder()
     rec.initialized = False
-    a, ms, rec = cl.build([(f"m{i}", m["times"], m["open"]) for i, m in enumerate(case["markets"])], case["prices"], case["istr"], rec)
+    a, ms, rec = cl.build([(f"m{i}", m["times"], m["open"], m["kind"]) for i, m in enumerate(case["markets"])], case["prices"], case["istr"], rec)
     sc = case["script"]
     t_before = {r: o for r, o in sc["before"]}
     t_on = {r: o for r, o in sc["on"]}
@@ -128,9 +131,9 @@ def run_impl(case):
             try:
                 ms[m].op(tag, ok)
                 ev(["ok", now(), hook, m, tag])
-            except DemeterError:
-                ev(["rej", now(), hook, m, tag, True])
-            except ValueError:
+            except DemeterError as e:
+                ev(["rej", now(), hook, m, tag, "is not open" in str(e)])
+            except (ValueError, AssertionError):
                 ev(["rej", now(), hook, m, tag, False])
 
     # update() scripts are keyed by row; ProbeMarket keys them by time: fill lazily from before_bar
